@@ -196,6 +196,17 @@ CHECKS = {
              "pickle, real torch files, all ordered pairs as polyglot inputs (inputs unchanged, nothing left behind, output identified as each "
              "combined format). One defect repaired (temp files on exceptional exits); known finding: TorchScript v1.0 row (code also wants constants.pkl).",
         ref="§C17"),
+    "C16": dict(
+        text="Proof over an abstract zip archive (ordered records with MEMBER bytes; what writestr appends) of the real inject_payload "
+             "(injection='insertion'): loop invariant 'the first i members written have the names of the first i input records, each byte-"
+             "identical except */data.pkl which is dumps() of the injected pickle' for archives of any size; the input archive is only opened "
+             "for reading and the only archive written is output_path; the payload is injected exactly once; the rename onto the input happens "
+             "exactly when overwrite is requested, and the only removal is of a leftover output_path.",
+        note="Trusted: zipfile's format (the written archive is those members), PyTorchModelWrapper.pickled / formats (C06 / C17), the injection "
+             "helper's frame (C08). 'Loading runs the payload once and rebuilds an equal model' is about torch.load and the pickle VM: bounded "
+             "companion replay/pt_diff.py (7 object families incl. zero-size tensors and shared storages x 3 payloads x 2 overwrite "
+             "settings), labelled bounded.",
+        ref="§C16"),
 }
 NA_REASON = "check not built yet (work in progress; see DESIGN.md)"
 
